@@ -11,6 +11,7 @@ TECHNIQUE = {
  "C01": "path-sensitive exploration (event bits for Content-Length / Transfer-Encoding matches, facts on connectionClose and the framing cell) of the request head field loop; serve-loop error exploration; byte-comparison coverage of the chunk-size scanner",
  "C03": "value-flow to the bounding writer and bounded-use classification of its methods, path-sensitive nil-return exploration of writeBodyFixedSize, control-dependence of body emission on the no-body predicate, must-pass rules in SetContentLength, serve-loop HEAD exploration",
  "C02": "path-sensitive exploration of the serve loop's SSA CFG over a finite abstraction (event bits + boolean/nil facts): must-close / must-check obligations per iteration",
+ "C04": "connection typestate in RoundTrip by path-sensitive exploration (dispose-exactly-once counter, pooled-only-after-clean-read), control-dependence of pooling in the stream-close closure, select-case typestate of pooled pipeline work items, per-item typestate of the pipeline writer",
  "C05": "backward cleanliness (taint) analysis with sanitiser classes over SSA: reaching definitions of scratch fields, in-place and returning neutraliser summaries, call-site resolution of helper parameters, induction over checked storage fields; neutraliser shape precondition",
  "C06": "as C05 with two sanitiser classes (CR/LF and ';') for Cookie fields and the request cookie list",
  "C10": "backward condition slicing (interprocedural atoms of the close decision) + path-sensitive exploration of the serve loop",
@@ -21,10 +22,12 @@ TECHNIQUE = {
  "C15": "path-sensitive exploration of the serve loop: ordering of idle-marker stores, handler dispatch and stop-flag loads",
  "C16": "path-sensitive exploration of the serve loop's timeout branch: value identity of the ctx written/released, stale-field reads after the swap",
  "C17": "path-sensitive exploration (ordering and never-after rules) of the serve loop's hijack branch and of hijackConnHandler",
+ "C18": "connsCount pairing per function (counters in the abstract state, contracts of callees), lockset must-analysis with a guarded-by table, bound check control-dependence and critical-section atomicity by reach-avoiding searches",
  "C19": "path-sensitive exploration of the retry loop (per-transmission must-pass events, loop-invariance of the body-stream flag, retry-decision phi), condition atoms of the idempotency predicate, constant retry flags of the transport's early returns",
  "C20": "reach-avoiding (must-pass) searches between hops of the redirect loop, constant sets of deleted header names, backward value slicing of the trust anchor (derives from the URL string, not from Request storage; loop-invariant)",
  "C21": "path-sensitive exploration: scheme comparison on every path to the transport, TLS-typed results of dialAddr under the TLS flag; value-flow of the map-selecting flag into HostClient.IsTLS",
  "C22": "result-use analysis of stackless function values (SSA referrers, reach-avoiding search on the queue-full edge), sibling cross-check of the body compressors, control-dependence of coder selection",
+ "C38": "typestate over select cases (timer / queue / completion) explored on every path of the deadline call; shape of the overflow return",
  "C28": "classification of element moves in key/value slice routines by index provenance (len-derived vs forward) + who-may-shorten rule over all stores to Args storage",
  "C29": "as C28 for header storage + sibling agreement of special-name tables + CopyTo field coverage (must-write and copied-from-same-field analyses)",
  "C30": "constant evaluation (big-integer side conditions) + path-sensitive guard exploration on SSA",
